@@ -152,7 +152,84 @@ func VerifC07Subst() {
 	stA := vrtChoice("stateA", 2)
 	valA := ""
 	if stA == 1 {
-		valA = vrtString("valA", vrtParam("VL", 2), "x${}")
+		alpha := "x$"
+		if vrtParam("RICH", 0) == 1 {
+			alpha = "x${}_"
+		}
+		valA = vrtString("valA", vrtParam("VL", 2), alpha)
+	}
+	stU := vrtChoice("state_", 2)
+	valU := ""
+	if stU == 1 {
+		valU = vrtString("val_", 1, "y$")
+	}
+	mapping := func(name string) (string, bool) {
+		switch name {
+		case "A", "a":
+			return valA, stA == 1
+		case "_":
+			return valU, stU == 1
+		}
+		return "", false
+	}
+	got, err := Substitute(tmpl, mapping)
+	ref := &c07Ref{m: mapping}
+	want, _, _ := ref.eval(tmpl, 0, true)
+	vrtObserve("got", got)
+	vrtObserve("err", err != nil)
+	if ref.unspec {
+		vrtCover("unspecified")
+		return
+	}
+	if len(ref.errs) == 0 {
+		vrtCover("value")
+		vrtAssert("no-error-expected", err == nil)
+		vrtAssert("value", got == want)
+		return
+	}
+	vrtCover("error")
+	vrtAssert("error-expected", err != nil)
+	if err == nil || len(ref.errs) > 1 {
+		return
+	}
+	e := ref.errs[0]
+	switch x := err.(type) {
+	case *InvalidTemplateError:
+		vrtAssert("error-kind-invalid", e.kind == 1)
+	case *MissingRequiredError:
+		vrtAssert("error-kind-required", e.kind == 2)
+		if e.kind == 2 {
+			vrtAssert("error-variable", x.Variable == e.name)
+			vrtAssert("error-reason", x.Reason == e.reason)
+		}
+	default:
+		vrtAssert("error-type", false)
+	}
+}
+
+// VerifC07Grammar drives the operator forms directly: pre ${NAME op inner} post, with
+// symbolic operator, operand and surrounding text, so that operator semantics are
+// covered at lengths the free-string harness does not reach.
+func VerifC07Grammar() {
+	pre := vrtString("pre", vrtParam("PRE", 1), "$A x")
+	names := []string{"A", "_"}
+	name := names[vrtChoice("name", 2)]
+	op := vrtString("op", 2, ":-+?")
+	inner := vrtString("inner", vrtParam("IL", 2), "${}:-A_x")
+	post := vrtString("post", vrtParam("PL", 2), "${}A x")
+	tmpl := pre + "${" + name + op + inner + "}" + post
+	c07Check(tmpl)
+}
+
+func c07Check(tmpl string) {
+	stA := vrtChoice("stateA", 2)
+	valA := ""
+	if stA == 1 {
+		alpha := "x$"
+		if vrtParam("RICH", 0) == 1 {
+			alpha = "x${}_"
+		}
+		valA = vrtString("valA", vrtParam("VL", 2), alpha)
 	}
 	stU := vrtChoice("state_", 2)
 	valU := ""
